@@ -35,7 +35,8 @@ def run(tier):
             for k in range(3 if quick else 5):
                 try:
                     v = vg.obj(cls, body)
-                except Exception:
+                except Exception as ex:
+                    C.harness_failure('value-generation', f"{t['name']} {cls}: {type(ex).__name__}: {ex}")
                     continue
                 big = t['name'].startswith('mini-eo-core')      # large classes with short/three length fields: hostile counts are slow
                 jobs.append(dict(op='ser', cls=cls, value=v, san=False, then_deser=True, mutants=(3 if big else 8) if quick else 14))
